@@ -7,6 +7,7 @@ import Decaf.Props.C04
 import Decaf.Lemmas.Formulas.MinAdd
 import Decaf.Lemmas.Formulas.MinDouble
 import Decaf.Lemmas.Formulas.MinNeg
+import Decaf.Lemmas.Formulas.OpForms
 
 namespace C04.Translated
 open Model Edwards
@@ -48,5 +49,22 @@ theorem programs_correct (envC : ℕ → Ext) (envP : ℕ → E) (h : ∀ i, ERe
     ERepr (evalCode envC e) (C04.denote envP e) ∧ Ext.eq (evalCode envC e) (C04.evalRef envC e) = true := by
   rw [evalCode_eq]
   exact ⟨C04.evalMin_repr envC envP h e, C04.programs_agree envC envP h e⟩
+
+/-- **every operator form** (owned / borrowed / in-place / mixed affine–projective, both backends; the list is
+regenerated from the `impl` blocks of the sources on every run) denotes the group operation on the curve group, so
+all forms agree with each other and with the reference law -/
+theorem operator_forms (P Q : E) :
+    (∀ f ∈ (Gen.OpForms.addForms : List (String × (E → E → E))), f.2 P Q = P + Q) ∧
+    (∀ f ∈ (Gen.OpForms.subForms : List (String × (E → E → E))), f.2 P Q = P - Q) ∧
+    (∀ f ∈ (Gen.OpForms.negForms : List (String × (E → E))), f.2 P = -P) :=
+  ⟨fun f hf => Formulas.OpForms.addForms_correct f hf P Q, fun f hf => Formulas.OpForms.subForms_correct f hf P Q,
+   fun f hf => Formulas.OpForms.negForms_correct f hf P⟩
+
+/-- the lists are not empty (non-vacuity): at least the forms the property names exist in each backend -/
+theorem operator_forms_nonempty :
+    5 ≤ (Gen.OpForms.addForms : List (String × (E → E → E))).length ∧
+    5 ≤ (Gen.OpForms.subForms : List (String × (E → E → E))).length ∧
+    1 ≤ (Gen.OpForms.negForms : List (String × (E → E))).length := by
+  simp [Gen.OpForms.addForms, Gen.OpForms.subForms, Gen.OpForms.negForms]
 
 end C04.Translated
